@@ -106,6 +106,8 @@ type Engine struct {
 	// establishes them or is reported) and that therefore hold on entry; only requirements over
 	// the parameters' own values and lengths (nothing loaded from memory)
 	entry map[*ssa.Function][]Ineq
+	// paramSets: constants a parameter receives at every call site (see constParamSet)
+	paramSets map[*ssa.Parameter][]int64
 	// affine: result summaries (see affineSummary)
 	affine map[[2]interface{}]*affineSum
 }
@@ -293,9 +295,10 @@ func (e *Engine) factsAt(c *fnCtx, at ssa.Instruction, goal Lin, hyp []Ineq) []I
 				used = append(used, c.defFacts(a)...)
 			}
 		}
-		if infeasible(append(append([]Ineq{}, used...), Ineq{d.Scale(-1).Add(Const(-1)), "d<=-1"})) {
+		withHyp := append(append([]Ineq{}, used...), hyp...)
+		if infeasible(append(append([]Ineq{}, withHyp...), Ineq{d.Scale(-1).Add(Const(-1)), "d<=-1"})) {
 			used = append(used, Ineq{d.Add(Const(-1)), "guard != with lower bound"})
-		} else if infeasible(append(append([]Ineq{}, used...), Ineq{d.Add(Const(-1)), "d>=1"})) {
+		} else if infeasible(append(append([]Ineq{}, withHyp...), Ineq{d.Add(Const(-1)), "d>=1"})) {
 			used = append(used, Ineq{d.Scale(-1).Add(Const(-1)), "guard != with upper bound"})
 		}
 	}
@@ -400,6 +403,35 @@ func (e *Engine) proveH(c *fnCtx, at ssa.Instruction, goal Ineq, hyp []Ineq, dep
 		}
 		if okAll {
 			return true, "per-edge/induction over " + valueName(ph)
+		}
+	}
+	// a parameter that every call site gives one of a few constants (an unexported helper
+	// parameterised by a size): the goal is proved for each value the guards leave possible
+	if depth == 0 {
+		for _, prm := range c.fn.Params {
+			set := e.constParamSet(prm)
+			if len(set) < 2 {
+				continue
+			}
+			atom := Atom{Kind: 'v', Root: prm}
+			okAll, any := true, false
+			for _, k := range set {
+				hs := append(append([]Ineq{}, hyp...), Ineq{Var(atom).Sub(Const(k)), "guard: parameter value at every call site"}, Ineq{Const(k).Sub(Var(atom)), "guard: parameter value at every call site"})
+				pseudo := goal.L.Clone()
+				pseudo.C[atom] = 1
+				fs := e.factsAt(c, at, pseudo, hs)
+				if infeasible(append(append([]Ineq{}, fs...), hs...)) {
+					continue // the guards leading here exclude this value
+				}
+				any = true
+				if !infeasible(append(append(append([]Ineq{}, fs...), hs...), neg)) {
+					okAll = false
+					break
+				}
+			}
+			if okAll && any {
+				return true, "for each value every call site passes for " + prm.Name()
+			}
 		}
 	}
 	// auxiliary invariants: a goal that also mentions values recomputed in the loop cannot be
@@ -570,12 +602,7 @@ func (e *Engine) Enumerate(fn *ssa.Function) []*Obligation {
 					n := c.lin(x.Len)
 					goals := []Ineq{{n, "len>=0"}}
 					// a size proportional to data already held in memory is bounded by that data
-					prop := len(n.C) > 0 && n.K <= e.MaxMake
-					for a, k := range n.C {
-						if !(a.Kind == 'l' || a.Kind == 'c') || k <= 0 || k > 16 {
-							prop = false
-						}
-					}
+					prop := proportional(c, n, e.MaxMake, 0)
 					if !prop {
 						goals = append(goals, Ineq{Const(e.MaxMake).Sub(n), fmt.Sprintf("len<=%d", e.MaxMake)})
 					}
@@ -1201,6 +1228,85 @@ func (e *Engine) reachesSizeSink(v ssa.Value, depth int, seen map[ssa.Value]bool
 		}
 	}
 	return false
+}
+
+// proportional: the size is a small multiple of lengths of data already held in memory (or a
+// quotient / right shift of such a size), plus a constant below the allocation limit.
+func proportional(c *fnCtx, n Lin, max int64, depth int) bool {
+	if len(n.C) == 0 || n.K > max || depth > 3 {
+		return false
+	}
+	for a, k := range n.C {
+		if k <= 0 || k > 16 {
+			return false
+		}
+		if a.Kind == 'l' || a.Kind == 'c' {
+			continue
+		}
+		if a.Kind != 'v' || a.Path != "" {
+			return false
+		}
+		bo, ok := a.Root.(*ssa.BinOp)
+		if !ok || (bo.Op != token.QUO && bo.Op != token.SHR) {
+			return false
+		}
+		if d, isK := constInt(bo.Y); !isK || d < 0 || (bo.Op == token.QUO && d < 1) {
+			return false
+		}
+		if !proportional(c, c.lin(bo.X), max, depth+1) {
+			return false
+		}
+	}
+	return true
+}
+
+// constParamSet: the constants an integer parameter of an unexported function receives, when
+// every call site in the program passes a constant (at most 4 different ones); nil otherwise.
+func (e *Engine) constParamSet(prm *ssa.Parameter) []int64 {
+	if e.paramSets == nil {
+		e.paramSets = map[*ssa.Parameter][]int64{}
+	}
+	if s, ok := e.paramSets[prm]; ok {
+		return s
+	}
+	e.paramSets[prm] = nil
+	fn := prm.Parent()
+	if fn == nil || !isInteger(prm.Type()) || fn.Object() == nil || fn.Object().Exported() || fn.Parent() != nil {
+		return nil
+	}
+	k := -1
+	for i, q := range fn.Params {
+		if q == prm {
+			k = i
+		}
+	}
+	seen := map[int64]bool{}
+	n := 0
+	for _, ed := range e.P.Callers(fn) {
+		if ed.Site == nil {
+			return nil
+		}
+		args := ed.Site.Common().Args
+		if ed.Site.Common().StaticCallee() != fn || k < 0 || k >= len(args) {
+			return nil
+		}
+		v, isK := constInt(args[k])
+		if !isK {
+			return nil
+		}
+		seen[v] = true
+		n++
+	}
+	if n == 0 || len(seen) > 4 {
+		return nil
+	}
+	var out []int64
+	for v := range seen {
+		out = append(out, v)
+	}
+	sort.Slice(out, func(i, j int) bool { return out[i] < out[j] })
+	e.paramSets[prm] = out
+	return out
 }
 
 // pureParam: the form mentions only the values, lengths and capacities of parameters (nothing
